@@ -2,23 +2,24 @@
 (* Exhaustive configurations of CompatLoop: programs = who waits for what. *)
 EXTENDS CompatLoop
 CONSTANTS w1, w2
-AllMuts == {"none", "clearAfterPoll", "ignoreFlush", "noTimeout", "noFlush", "drainAfterBlocking"}
 BothHosts == {"tokio", "futures"}
-\* program A: a thread wakes task t1, which also sleeps; the main future reads from a descriptor
-TgtA == (w1 :> "t1")
-OwnA == ("o1" :> "main") @@ ("s1" :> "t1")
-\* program B: a thread wakes the main future; task t1 reads from a descriptor and runs a blocking job
-TgtB == (w1 :> "main")
-OwnB == ("o1" :> "t1") @@ ("j1" :> "t1")
-\* program C: the main future reads and sleeps; a blocking job nobody waits for any more is still running
-TgtC == (w1 :> "main")
-OwnC == ("o1" :> "main") @@ ("s1" :> "main") @@ ("j1" :> "none")
-\* program D: two threads (main, t1), t1 reads
-TgtD == (w1 :> "main") @@ (w2 :> "t1")
-OwnD == ("o1" :> "t1")
+TgtNone == [w \in {} |-> "main"]
 \* quick programs
-TgtQ1 == (w1 :> "t1")
+TgtQ1 == (w1 :> "t1")                                   \* a thread wakes task t1; the main future reads
 OwnQ1 == ("o1" :> "main")
-TgtQ2 == (w1 :> "main")
-OwnQ2 == ("s1" :> "t1") @@ ("j1" :> "main")
+OwnQT == ("s1" :> "main") @@ ("o1" :> "t1")             \* the main future sleeps, task t1 reads (no thread)
+OwnQJ == ("o1" :> "main") @@ ("j1" :> "main")           \* the main future reads and runs a blocking job
+OwnQO == ("o1" :> "main") @@ ("j1" :> "none")           \* ... a blocking job nobody waits for any more
+\* thorough programs
+TgtA == (w1 :> "t1")                                    \* a thread wakes t1, which also sleeps; main reads
+OwnA == ("o1" :> "main") @@ ("s1" :> "t1")
+TgtB == (w1 :> "main")                                  \* a thread wakes main; t1 reads and runs a blocking job
+OwnB == ("o1" :> "t1") @@ ("j1" :> "t1")
+TgtC == (w1 :> "main")                                  \* main reads and sleeps, orphan job
+OwnC == ("o1" :> "main") @@ ("s1" :> "main") @@ ("j1" :> "none")
+TgtD == (w1 :> "main") @@ (w2 :> "t1")                  \* two threads (main, t1), t1 reads
+OwnD == ("o1" :> "t1")
+\* liveness of the repaired loop on programs with blocking jobs
+CompletesRepaired == <>(mut # "repaired" \/ Finished)
+JobSeenRepaired == \A j \in Jobs : (mut = "repaired" /\ Owner[j] # "none" /\ jobSt[j] = "running") ~> got[j]
 =============================================================================
